@@ -4,6 +4,7 @@ package verifharness
 
 import (
 	"fmt"
+	"math/rand"
 	"os"
 	"path/filepath"
 	"strings"
@@ -29,6 +30,43 @@ func safeExec(exe string, args []string, timeout time.Duration) (out string, err
 		}
 	}()
 	out, err = util.SafeCmdExecution(exe, args, timeout)
+	return
+}
+
+// guarded runs one call of fan2go code with a watchdog: "ok" / "err" / "panic", or "hung" if it has not
+// returned after limit (the goroutine is abandoned; the caller must not touch the object again)
+func guarded(limit time.Duration, call func() error) (outcome string, dur time.Duration) {
+	done := make(chan string, 1)
+	t0 := time.Now()
+	go func() {
+		res := "ok"
+		defer func() {
+			if p := recover(); p != nil {
+				res = "panic"
+			}
+			done <- res
+		}()
+		if e := call(); e != nil {
+			res = "err"
+		}
+	}()
+	select {
+	case r := <-done:
+		return r, time.Since(t0)
+	case <-time.After(limit):
+		return "hung", time.Since(t0)
+	}
+}
+
+// guardedFair: a call that returned but looks too slow for its 2 s deadline is measured again (up to twice): a
+// genuine delay reproduces, a scheduling hiccup of a loaded machine does not; the fastest measurement counts
+func guardedFair(limit time.Duration, call func() error) (outcome string, dur time.Duration) {
+	outcome, dur = guarded(limit, call)
+	for retry := 0; retry < 2 && outcome != "hung" && dur > 2900*time.Millisecond; retry++ {
+		if o2, d2 := guarded(limit, call); o2 == "hung" || d2 < dur {
+			outcome, dur = o2, d2
+		}
+	}
 	return
 }
 
@@ -226,6 +264,18 @@ func TestDriveC19(t *testing.T) {
 		{"garbage", mk("garbage.sh", "#!/bin/sh\necho 'not a number'\n", 0755)},
 		{"huge", mk("huge.sh", "#!/bin/sh\nhead -c 3000000 /dev/zero | tr '\\0' '7'\n", 0755)},
 		{"hugeThenSleep", mk("hugesleep.sh", "#!/bin/sh\nhead -c 300000 /dev/zero | tr '\\0' '7'\nsleep 30\n", 0755)},
+		// what ends up on stderr / how stdout ends must not matter either
+		{"stderrNoNewline", mk("errnonl.sh", "#!/bin/sh\nprintf 'bus busy' >&2\nexit 1\n", 0755)},
+		{"stderrBlankLines", mk("errblank.sh", "#!/bin/sh\nprintf '\\n\\n' >&2\nexit 2\n", 0755)},
+		{"stderrHuge", mk("errhuge.sh", "#!/bin/sh\nhead -c 400000 /dev/zero | tr '\\0' 'e' >&2\nexit 2\n", 0755)},
+		{"stderrBinary", mk("errbin.sh", "#!/bin/sh\nprintf '\\377\\376%%s%%d\\000x' >&2\nexit 4\n", 0755)},
+		{"killedWithStderr", mk("killerr.sh", "#!/bin/sh\nprintf 'dying' >&2\nkill -9 $$\n", 0755)},
+		{"termSelf", mk("termself.sh", "#!/bin/sh\necho 3\nkill -TERM $$\nsleep 1\n", 0755)},
+		{"okWithStderr", mk("okerr.sh", "#!/bin/sh\nprintf 'warning: slow bus' >&2\necho 42\n", 0755)},
+		{"okNoNewline", mk("oknonl.sh", "#!/bin/sh\nprintf 42\n", 0755)},
+		{"closesStdoutThenSleeps", mk("closesleep.sh", "#!/bin/sh\necho 1\nexec >&- 2>&-\nsleep 30\n", 0755)},
+		{"readsStdin", mk("stdin.sh", "#!/bin/sh\nread x\necho 4${x}2\n", 0755)},
+		{"exit255", mk("exit255.sh", "#!/bin/sh\nexit 255\n", 0755)},
 	}
 	timeouts := []int{200, 500, 1000, 2000}
 	idx := 0
@@ -260,30 +310,80 @@ func TestDriveC19(t *testing.T) {
 			}
 		}
 	}
-	// the wrappers: cmd sensor / cmd fan use a fixed 2 s timeout
+	// the wrappers: cmd sensor / cmd fan use a fixed 2 s timeout. Every object is used for a SEQUENCE of calls
+	// (a daemon polls the same sensor for ever): a call that fails must not make a later one hang or crash.
+	// One command per object whose behaviour is switched through a file between the calls.
 	if shard == 0 {
-		for _, m := range []int{2, 9, 11, 14} { // exit3, sleepPastDeadline, grandchild, garbage
-			md := modes[m]
-			s, _ := sensors.NewSensor(configuration.SensorConfig{ID: "c19s", Cmd: &configuration.CmdSensorConfig{Exec: md.path}})
-			t0 := time.Now()
-			var e error
-			pan := false
-			func() {
-				defer func() {
-					if p := recover(); p != nil {
-						pan = true
+		mfile := filepath.Join(dir, "wrapmode")
+		wrap := mk("wrap.sh", fmt.Sprintf("#!/bin/sh\ncase \"$(cat %s)\" in\n ok) echo 42;;\n garbage) echo 'n/a';;\n digits) echo '503 Service Unavailable';;\n empty) ;;\n exit3) echo partial; echo problem >&2; exit 3;;\n errnonl) printf 'bus busy' >&2; exit 1;;\n okexit) echo 0; exit 3;;\n sleep) sleep 30;;\n grandchild) sleep 6 &\n echo 5;;\n nan) echo nan;;\nesac\n", mfile), 0755)
+		setMode := func(m string) { must(os.WriteFile(mfile, []byte(m), 0644)) }
+		wmodes := []string{"ok", "garbage", "digits", "empty", "exit3", "errnonl", "okexit", "sleep", "grandchild", "nan"}
+		emit := func(kind, m string, outcome string, dur time.Duration, val string) {
+			rec.Emit(Ev{"ev": "Call", "mode": kind + ":" + m, "timeout": 2000, "dur": int(dur / time.Millisecond),
+				"outcome": outcome, "outlen": 0, "trimmed": true, "sample": val})
+		}
+		r := rand.New(rand.NewSource(int64(envInt("VERIF_SEED", 1))))
+		for seq := 0; seq < 3+reps; seq++ {
+			s, err := sensors.NewSensor(configuration.SensorConfig{ID: uniq("c19s"), Cmd: &configuration.CmdSensorConfig{Exec: wrap}})
+			must(err)
+			cf, err := fans.NewFan(configuration.FanConfig{ID: uniq("c19f"), Curve: "none", Cmd: &configuration.CmdFanConfig{
+				SetPwm: &configuration.ExecConfig{Exec: wrap, Args: []string{"%pwm%"}}, GetPwm: &configuration.ExecConfig{Exec: wrap},
+				GetRpm: &configuration.ExecConfig{Exec: wrap}}})
+			must(err)
+			dead := false
+			for k := 0; k < 7 && !dead; k++ {
+				m := wmodes[r.Intn(len(wmodes))]
+				if seq == 0 { // the first sequence visits every behaviour once, a working call after each
+					m = wmodes[(k*3+seq)%len(wmodes)]
+				}
+				for _, mm := range []string{m, "ok"} {
+					setMode(mm)
+					val := ""
+					oc, dur := guardedFair(12*time.Second, func() error {
+						v, e := s.GetValue()
+						if e == nil {
+							val = fmt.Sprint(v)
+						}
+						return e
+					})
+					emit("sensor", mm, oc, dur, val)
+					if oc == "hung" {
+						dead = true
+						break
 					}
-				}()
-				_, e = s.GetValue()
-			}()
-			outcome := "ok"
-			if pan {
-				outcome = "panic"
-			} else if e != nil {
-				outcome = "err"
+					// the accessors the curves and the API use must stay available whatever the command did
+					oc, dur = guarded(5*time.Second, func() error { s.SetMovingAvg(s.GetMovingAvg()); return nil })
+					emit("sensoravg", mm, oc, dur, "")
+					if oc == "hung" {
+						dead = true
+						break
+					}
+					for _, op := range []string{"getPwm", "getRpm", "setPwm"} {
+						val = ""
+						oc, dur = guardedFair(12*time.Second, func() error {
+							switch op {
+							case "getPwm":
+								v, e := cf.GetPwm()
+								val = fmt.Sprint(v)
+								return e
+							case "getRpm":
+								v, e := cf.GetRpm()
+								val = fmt.Sprint(v)
+								return e
+							}
+							return cf.SetPwm(100)
+						})
+						emit("fan."+op, mm, oc, dur, val)
+						if oc == "hung" {
+							dead = true
+							break
+						}
+					}
+					if dead {
+						break
+					}
+				}
 			}
-			rec.Emit(Ev{"ev": "Call", "mode": "sensor:" + md.name, "timeout": 2000, "dur": int(time.Since(t0) / time.Millisecond),
-				"outcome": outcome, "outlen": 0, "trimmed": true, "sample": ""})
 		}
 	}
 }
